@@ -29,6 +29,7 @@ func init() {
 		ruleR01c(c, "R01c")
 		ruleR01de(c)
 		ruleR01f(c)
+		ruleAmountOpsMatch(c, "R01i")
 		ruleR01h(c)
 		ruleR01g(c)
 	})
@@ -51,6 +52,7 @@ func init() {
 		ruleDecimalParses(c, "R08i", 1)
 		ruleR08j(c, "R08j", 10)
 		ruleRecognizersReportErrors(c, "R08l")
+		ruleQuotesOnlyTrimmed(c, "R08m")
 		ruleR01f(c)
 	})
 	register("C12", propMeta{
